@@ -59,7 +59,7 @@ func secretOf(access string) (string, bool) {
 }
 
 var defects = []string{"no-auth", "empty-auth", "malformed", "unknown-key", "wrong-secret", "sig-digit", "sig-zero",
-	"alter-header", "alter-query", "alter-path", "alter-payload", "payload-hash", "date-skew", "scope-date", "scope-region",
+	"alter-header", "dup-header", "alter-query", "alter-path", "alter-payload", "payload-hash", "date-skew", "scope-date", "scope-region",
 	"scope-service", "scope-term"}
 var presignDefects = []string{"expired", "expires-altered", "sig-digit", "sig-zero", "alter-query", "alter-path", "param-missing",
 	"unknown-key", "wrong-secret", "scope-region"}
@@ -241,6 +241,50 @@ func damage(r *s3c.Req, c caseA, now time.Time) {
 			} else {
 				r.Set("X-Amz-Content-Sha256", s3c.Unsigned)
 			}
+		}
+	case "dup-header":
+		// a second occurrence of a signed header, with another value, before or after the signed one: the
+		// signature covers one value, a handler may read the other
+		var signed []string
+		if i := strings.Index(auth, "SignedHeaders="); i >= 0 {
+			list := auth[i+len("SignedHeaders="):]
+			if j := strings.IndexAny(list, ", "); j >= 0 {
+				list = list[:j]
+			}
+			signed = strings.Split(list, ";")
+		}
+		// Not judged: a second Host or Content-Type (the HTTP layer keeps a single value of these, which is
+		// the one verified and used) and a second X-Amz-Date (the verifier replaces the header by the parsed
+		// signing time before canonicalising; nothing else reads it): the extra value is never acted upon.
+		var usable []string
+		for _, n := range signed {
+			if n != "host" && n != "content-type" && n != "x-amz-date" && n != "content-length" {
+				usable = append(usable, n)
+			}
+		}
+		signed = usable
+		if len(signed) == 0 {
+			r.Set("Authorization", replaceSig(auth, strings.Repeat("0", 64)))
+			break
+		}
+		name := signed[c.Arg%len(signed)]
+		orig := r.Get(name)
+		alt := orig + "x"
+		switch strings.ToLower(name) {
+		case "x-amz-date":
+			alt = now.Add(time.Second).UTC().Format(s3c.ISO8601)
+		case "x-amz-content-sha256":
+			alt = s3c.Unsigned
+			if orig == s3c.Unsigned {
+				alt = s3c.EmptySHA256
+			}
+		case "x-amz-copy-source":
+			alt = "bkt-b/canary"
+		}
+		if (c.Arg/len(signed))%2 == 0 {
+			r.Header = append([]s3c.KV{{K: name, V: alt}}, r.Header...)
+		} else {
+			r.Header = append(r.Header, s3c.KV{K: name, V: alt})
 		}
 	case "alter-query":
 		r.Query = append(r.Query, s3c.KV{K: []string{"versionId", "max-keys", "prefix", "x"}[c.Arg%4], V: "1"})
